@@ -80,8 +80,8 @@ IsMajority(num, total) == num > (total \div 2)
 VoteGrantF(s, q) ==
   LET usable == IF q.t > s.term THEN NoVote ELSE s.vote
   IN /\ q.t >= s.term
-     /\ AtLeastAsRecent(LastIdx(s.log), LastTerm(s.log), q.li, q.lt)
-     /\ (usable.id = 0 \/ (usable.t = q.t /\ usable.id = q.from))
+     /\ ("M_NoLogCheckOnVote" \in Dev \/ AtLeastAsRecent(LastIdx(s.log), LastTerm(s.log), q.li, q.lt))
+     /\ ("M_GrantTwice" \in Dev \/ usable.id = 0 \/ (usable.t = q.t /\ usable.id = q.from))
 
 VQ_F_State(s, q) ==
   [s EXCEPT !.term = IF q.t > @ THEN q.t ELSE @,
@@ -110,7 +110,8 @@ HandleVQ_State(s, q) ==
     [] s.role = "L" -> IF s.term < q.t
                        THEN VQ_F_State(StepDown([s EXCEPT !.term = q.t]), q)
                        ELSE s
-    [] s.role = "Ln" -> [s EXCEPT !.term = IF q.t > @ THEN q.t ELSE @]
+    [] s.role = "Ln" -> IF "M_VoteAsLearner" \in Dev THEN VQ_F_State(s, q)
+                        ELSE [s EXCEPT !.term = IF q.t > @ THEN q.t ELSE @]
 HandleVQ_Resp(s, q) ==
   LET rej == [g |-> FALSE, t |-> s.term, li |-> LastIdx(s.log), lt |-> LastTerm(s.log)]
   IN CASE s.role = "F" -> VQ_F_Resp(s, q)
@@ -118,7 +119,7 @@ HandleVQ_Resp(s, q) ==
                           THEN VQ_F_Resp(StepDown([s EXCEPT !.term = q.t]), q) ELSE rej
        [] s.role = "L" -> IF s.term < q.t
                           THEN VQ_F_Resp(StepDown([s EXCEPT !.term = q.t]), q) ELSE rej
-       [] s.role = "Ln" -> rej
+       [] s.role = "Ln" -> IF "M_VoteAsLearner" \in Dev THEN VQ_F_Resp(s, q) ELSE rej
 
 (***************************************************************************)
 (* Election round outcome (ElectionHandler::broadcast_vote_requests).       *)
@@ -164,22 +165,24 @@ FilterAppend(log, a) ==
                ELSE LET pos == CHOOSE m \in D : \A o \in D : m <= o
                         di  == a.ents[pos].i
                         tl  == SubSeq(a.ents, pos, Len(a.ents))
-                    IN IF di <= last THEN Below(log, di) \o tl ELSE log \o tl
+                    IN IF di <= last THEN (IF "M_NoTruncateOnConflict" \in Dev THEN log ELSE Below(log, di) \o tl)
+                       ELSE log \o tl
 
 AE_State(s, a) ==
-  IF s.term > a.t THEN s
+  IF s.term > a.t /\ "M_AcceptStaleTermAE" \notin Dev THEN s
   ELSE
-    LET s1 == [s EXCEPT !.term = a.t, !.vote = [id |-> a.from, t |-> a.t, c |-> TRUE]]
+    LET s1 == [s EXCEPT !.term = Max(@, a.t), !.vote = [id |-> a.from, t |-> a.t, c |-> TRUE]]
     IN IF ~AELegal(s, a) THEN s1
        ELSE LET nl == IF Len(a.ents) > 0 THEN FilterAppend(s.log, a) ELSE s.log
-                nc == IF a.lc <= s.commit THEN s.commit
+                nc == IF "M_FollowerCommitNoMin" \in Dev THEN Max(s.commit, a.lc)
+                      ELSE IF a.lc <= s.commit THEN s.commit
                       ELSE IF "FollowerCommitUsesWholeLog" \in Dev THEN Min(a.lc, LastIdx(nl))
                       ELSE Max(s.commit, Min(a.lc, a.prev + Len(a.ents)))
             IN [s1 EXCEPT !.log = nl, !.commit = nc]
 
 \* response: [kind, t, mi, mt, ct, ci]; t = the follower's term BEFORE this request
 AE_Resp(s, a) ==
-  IF s.term > a.t
+  IF s.term > a.t /\ "M_AcceptStaleTermAE" \notin Dev
   THEN [kind |-> "higher", t |-> s.term, mi |-> 0, mt |-> s.term, ct |-> 0, ci |-> 0]
   ELSE IF ~AELegal(s, a)
   THEN IF InRange(s.log, a.prev)
@@ -214,7 +217,7 @@ HandleAE_Resp(s, a) ==
 MedianDesc(S) ==      \* S: sequence of naturals; element at position Len \div 2 + 1 when sorted descending
   LET n == Len(S)
       \* k-th largest = value v in S such that #(>v) < k <= #(>=v)
-      k == (n \div 2) + 1
+      k == IF "M_MinorityCommit" \in Dev /\ n > 2 THEN n \div 2 ELSE (n \div 2) + 1
       vals == {S[j] : j \in 1..n}
   IN CHOOSE v \in vals :
         /\ Cardinality({j \in 1..n : S[j] > v}) < k
@@ -224,7 +227,7 @@ LeaderCommitCandidate(s, voterPeers) ==     \* voterPeers: set of peer ids that 
   LET vs == SetToSeq(voterPeers)
       ms == [j \in 1..Len(vs) + 1 |-> IF j <= Len(vs) THEN s.match[vs[j]] ELSE LastIdx(s.log)]
       m  == MedianDesc(ms)
-  IN IF m >= s.commit /\ HasIdx(s.log, m) /\ TermAt(s.log, m) = s.term THEN m ELSE 0
+  IN IF m >= s.commit /\ HasIdx(s.log, m) /\ (TermAt(s.log, m) = s.term \/ "M_NoTermCheckOnCommit" \in Dev) THEN m ELSE 0
 LeaderNewCommit(s, voterPeers) ==
   LET c == LeaderCommitCandidate(s, voterPeers) IN IF c > s.commit THEN c ELSE s.commit
 
@@ -246,12 +249,13 @@ SpecNext(s, ae) == Max(ae.prev + Len(ae.ents) + 1, s.match[ae.to] + 1)
 
 \* AppendEntries response r = [from, kind, t, mi, mt, ct, ci] at the leader (handle_append_result)
 AR_State(s, r, voterPeers) ==
-  IF s.role # "L" \/ r.t < s.term THEN s
+  IF s.role # "L" \/ (r.t < s.term /\ "M_AcceptStaleAck" \notin Dev) THEN s
   ELSE IF r.t > s.term THEN StepDown([s EXCEPT !.term = r.t])
+  ELSE IF r.t < s.term /\ r.kind # "ok" THEN s
   ELSE IF r.kind = "higher"
   THEN IF r.mt > s.term THEN StepDown([s EXCEPT !.term = r.mt]) ELSE s
   ELSE IF r.kind = "ok"
-  THEN LET nm == Max(s.match[r.from], r.mi)
+  THEN LET nm == IF "M_MatchNotMonotone" \in Dev THEN r.mi ELSE Max(s.match[r.from], r.mi)
            nn == Max(Max(r.mi + 1, s.next[r.from]), nm + 1)
            s1 == [s EXCEPT !.match[r.from] = nm, !.next[r.from] = nn]
        IN IF r.from \in voterPeers
